@@ -6,7 +6,7 @@ CLAUSES = ["C04_Solves", "C04_SameObject", "C04_SameAsMatrixPDE", "C04_ExternalS
            "C04_Linear", "C04_Assembly", "C03_SolvedRobin",
            # the variable's boundary equations are those of the BCs as they are AT THE TIME OF THE SOLVE: a second
            # solve after the boundary data were re-assigned (property / slice assignment) returns the new target
-           "C12_History"]
+           "C12_History", "C12_Retry"]
 
 
 def run(tier, seed):
